@@ -190,13 +190,11 @@ example : pathOf [46, 47, 100, 47, 47] [[99], [98]] = [46, 47, 100, 47, 47, 98, 
     `Proofs/OutWalk.lean`. -/
 theorem C18_roots_in_order (c : Config) (t a : Prim) (ht : isTestP t = true) (ha : isOutP a = true)
     (roots : List (Bytes × Option (Node Attr)))
-    (hH : ∀ x ∈ roots, ∀ r, x.2 = some r → (refCfg c).depthFirst = true →
-      ¬ HRootLink (refCfg c) (if c.sorted then sortNode r else r))
     (g : GS) (ret diags : Nat) :
     let res := doFind c (.and [.prim t, .prim a]) roots g ret diags
     res.gs.out = g.out ++ roots.flatMap (writtenRoot c t a) ∧
     ((ret ≠ 0 ∨ ∃ x ∈ roots, x.2 = none) → res.ret ≠ 0) :=
-  doFind_out c t a ht ha roots hH g ret diags
+  doFind_out c t a ht ha roots g ret diags
 
 /-- non-vacuity: `find a missing b -print0` — the reference side, evaluated by the kernel -/
 example :
@@ -224,8 +222,7 @@ theorem C18_whole_run (follow : Follow) (t : Prim) (ht : isTestP t = true)
   have hb := buildTop_single_test t ht
   refine ⟨doFind { follow := follow } (.and [.prim t, .prim (.pathOut [] [10])]) roots g0 0 0, ?_, ?_⟩
   · simp only [run, List.foldl, applyArg, List.map, Arg.tok', hb, Bool.false_eq_true, if_false]
-  · have h := doFind_out { follow := follow } t (.pathOut [] [10]) ht rfl roots
-      (fun _ _ _ _ hd => by simp [refCfg] at hd) g0 0 0
+  · have h := doFind_out { follow := follow } t (.pathOut [] [10]) ht rfl roots g0 0 0
     exact ⟨h.1, fun hx => h.2 (Or.inr hx)⟩
 
 /-- the statement evaluated on a concrete run: `find a missing b -type f` -/
